@@ -255,3 +255,6 @@ impl serde::ser::Serializer for ValueSerializer {
         Ok(super::SerializeStructVariant::struct_(variant, len))
     }
 }
+
+#[cfg(kani)]
+include!(concat!(env!("TOML_VERIF_KANI"), "/toml_edit/ser_value.rs"));
